@@ -259,7 +259,8 @@ def run_timed(sc, V, stats):
                       % (h.kind, kw, clock.now - clock.first_read, budget))
             if budget > 0 and n1 - n0 < 1:
                 _viol(V, "timed.progress", "%s.run_for(%r) took no step" % (h.kind, kw))
-            if clock.max_batch_evals > 0 and clock.evals_after_deadline > 2 * clock.max_batch_evals + 50:
+            allowed = 4 * clock.max_batch_evals + 200 + int(3.0 / sc["cost"])
+            if clock.max_batch_evals > 0 and clock.evals_after_deadline > allowed:
                 _viol(V, "timed.stop", "%s.run_for(%r): %d posterior evaluations were made after the clock was seen past the "
                       "deadline; the largest batch before the deadline had %d" % (h.kind, kw, clock.evals_after_deadline, clock.max_batch_evals))
             _lengths_consistent(V, h, "after run_for")
@@ -335,5 +336,5 @@ def describe():
                           stub=["multiprocessing.Pool (simkit.kernel.SimPool)", "time.time (FakeClock / simulated clock)",
                                 "entropy behind default_rng"]),
         assumptions=["progress oracle: more than 1000 consecutive clock readings without a posterior evaluation before the deadline is a stall",
-                     "overshoot oracle: evaluations after the deadline was seen <= 2 x largest earlier batch + 50"],
+                     "overshoot oracle: evaluations after the deadline was seen <= 4 x largest earlier batch + 200 + 3 simulated seconds worth"],
     )
